@@ -160,7 +160,7 @@ def countFrom (sub : Str) : Nat → Str → Nat
   | _ + 1, [] => 0
   | f + 1, c :: t => if sub.isPrefixOf (c :: t) then 1 + countFrom sub f ((c :: t).drop sub.length) else countFrom sub f t
 
-def count (s sub : Str) : Int := if sub.isEmpty then (s.length : Int) + 1 else (countFrom sub (s.length + 1) s : Nat)
+def count (s sub : Str) : Int := if sub.isEmpty then (s.length : Int) + 1 else (countFrom sub s.length s : Nat)
 
 /-- split at non-overlapping occurrences of a non-empty separator -/
 def splitFrom (sep : Str) : Nat → Str → Str → List Str
